@@ -69,6 +69,12 @@ type DocSpec struct {
 	// Go-typed ones ([]map[string]interface{}, []float64, []string,
 	// map[string]map[string]interface{}).
 	Typed bool `json:"typed,omitempty"`
+	// Carve re-homes every []interface{} of the decoded document as a window
+	// of ONE backing array (windows placed in a fixed pseudo-random order, no
+	// gaps): the spare capacity of each array of the document is the storage
+	// of other arrays of the same document, as with a caller that slices one
+	// buffer. An append into a caller's array then changes the document.
+	Carve bool `json:"carve,omitempty"`
 }
 
 // ExprSpec is an expression compiled by the controller before the tasks
